@@ -587,16 +587,24 @@ def _c08_core(scn):
     any_reading = any(has_any_reading(t[-1][1]) for t in traces)
     plain_base = not cfg.get("ha") and not cfg.get("tf")
     state = {"stage": "construct"}
+    late = {int(i): st for i, st in (scn.get("late") or {}).items()}   # member index -> step after which it is registered (add_indicator)
     try:
-        hx = build_hexital(cfg, members, cm.mk_candles(stream[:init]))
-        missing = [n for n in names if n not in hx.indicators]
-        if missing or len(hx.indicators) != len(names):
-            return {"clause": "member-names", "observed": sorted(hx.indicators), "expected": sorted(names),
+        hx = build_hexital(cfg, [m for i, m in enumerate(members) if i not in late], cm.mk_candles(stream[:init]))
+        early = [n for i, n in enumerate(names) if i not in late]
+        missing = [n for n in early if n not in hx.indicators]
+        if missing or len(hx.indicators) != len(early):
+            return {"clause": "member-names", "observed": sorted(hx.indicators), "expected": sorted(early),
                     "signature": c08_signature(scn, "member-names", members[names.index(missing[0])] if missing else None)}
 
         def on_step(j, consumed):
             state["stage"] = f"step {j}"
-            for m, n, tr in zip(members, names, traces):
+            for i, st in late.items():
+                if st == j:
+                    hx.add_indicator(build_member(members[i], cfg))
+                    hx.calculate()
+            for i, (m, n, tr) in enumerate(zip(members, names, traces)):
+                if i in late and late[i] > j:
+                    continue   # not registered yet
                 ind = hx.indicator(n)
                 exp_c, exp_r = tr[j]
                 d = first_diff(candle_tuples(ind.candles), exp_c)
@@ -698,6 +706,12 @@ def gen_c08(rng, size=50, allow_hx_tf=True, allow_ha_member_tf=True, wide=False)
     stream, smeta = gen_stream_for(rng, n, base_tf, with_ts)
     (init, chunks), shape = gen.gen_schedule(rng, n)
     scn = {"check": "c08.members", "hx": cfg, "members": members, "stream": stream, "init": init, "chunks": chunks}
+    if cfg["life"] is None and not cfg["tf"] and len(members) >= 2 and rng.random() < 0.25:
+        # some members are registered LATER through add_indicator, after candles have arrived: their manager is then built from what the
+        # default manager holds (everything, since nothing is trimmed, and raw or recoverable) - the twin has seen the same stream
+        steps_n = 1 + len(chunks)
+        scn["late"] = {str(i): rng.randrange(steps_n) for i in rng.sample(range(len(members)), rng.randint(1, len(members) - 1))}
+        scn["keep_members"] = True   # the indices above refer to this member list
     tfs = {m["tf"] for m in members if m["tf"]}
     meta = {"price": smeta["price"], "ts": smeta["ts"], "schedule": shape, "members": len(members), "member_timeframes": len(tfs),
             "hx_tf": bool(cfg["tf"]), "fill": cfg["fill"], "life": cfg["life"] is not None, "ha": cfg["ha"]}
